@@ -345,6 +345,13 @@ fn gen_meta_e2e(rng: &mut Rng) -> Meta {
 
 fn gen_ctx_e2e(rng: &mut Rng) -> Ctx {
     if rng.chance(1, 6) { return gen_ctx(rng); }
+    if rng.chance(1, 8) {
+        // callers without a usable tenant
+        let mut c = gen_ctx(rng);
+        match rng.below(3) { 0 => return Ctx::absent(), 1 => c.tenant = None, _ => c.tenant = Some(pk(rng, &["", " ", "\"\"", "\" \"", "\u{a0}"]).to_string()) }
+        c.present = true;
+        return c;
+    }
     Ctx {
         present: true,
         tenant: Some(gen_scalar_from(rng, &["t1", "t1", "T1", "t2"])),
